@@ -256,7 +256,10 @@ def transform(rng, X, kind):
     if kind in ("rotate", "all", "rot+perm"):
         Y = Y @ random_rotation(rng).T + np.array([rng.uniform(-20, 20) for _ in range(3)])
     if kind == "translate":
-        Y = Y + np.array([rng.uniform(-100, 100) for _ in range(3)])
+        # up to 1e8 A from the origin: float64 still resolves 1.5e-8 A there, the shape is unchanged; formulas that
+        # subtract squared norms instead of coordinates lose it
+        mag = rng.choice([100.0, 100.0, 1e4, 1e6, 1e8])
+        Y = Y + np.array([rng.uniform(-1, 1) * mag for _ in range(3)])
     if kind in ("reflect", "all"):
         nrm = np.array([rng.gauss(0, 1) for _ in range(3)])
         nrm /= np.linalg.norm(nrm)
